@@ -346,9 +346,9 @@ func (s *subsetter) SubsetGsub(old *gtab.Info) *gtab.Info {
 			}
 		}
 
-		if len(tNew.Subtables) > 0 {
-			res.LookupList = append(res.LookupList, tNew)
-		}
+		// Lookups without remaining subtables are kept, so that the lookup
+		// indices used in the feature list stay valid.
+		res.LookupList = append(res.LookupList, tNew)
 	}
 
 	return &res
